@@ -37,14 +37,14 @@ theorem slcDec_append (w t : Bits) (hw : 36 ≤ w.length) : slcDec (w ++ t) = sl
   have h2 : ¬ w.length < 36 := by omega
   rw [if_neg h1, if_neg h2]
 
-theorem hrnpDec_append (d t : Bytes) (hf : Bool) (h12 : 12 ≤ d.length)
-    (hl : be16 ((d.take 10).drop 8) ≤ d.length) : hrnpDec (d ++ t) hf = hrnpDec d hf := by
+theorem hrnpDecOld_append (d t : Bytes) (hf : Bool) (h12 : 12 ≤ d.length)
+    (hl : be16 ((d.take 10).drop 8) ≤ d.length) : hrnpDecOld (d ++ t) hf = hrnpDecOld d hf := by
   have t10 : (d ++ t).take 10 = d.take 10 := List.take_append_of_le_length (by omega)
   have t12 : (d ++ t).take 12 = d.take 12 := List.take_append_of_le_length h12
   have tP : (d ++ t).take (be16 ((d.take 10).drop 8)) = d.take (be16 ((d.take 10).drop 8)) :=
     List.take_append_of_le_length hl
   have g3 : (d ++ t).getD 3 0 = d.getD 3 0 := getD_append_left' _ _ _ (by omega)
-  unfold hrnpDec
+  unfold hrnpDecOld
   simp only [t10, t12, tP, g3]
   have h1 : ¬ (d ++ t).length < 12 := by simp; omega
   have h2 : ¬ d.length < 12 := by omega
@@ -53,17 +53,17 @@ theorem hrnpDec_append (d t : Bytes) (hf : Bool) (h12 : 12 ≤ d.length)
   simp only [h1, h2, h3, h4, ↓reduceIte]
 
 /-- a buffer the parser accepted satisfies the two length conditions -/
-theorem hrnpDec_append_of_ok (d t : Bytes) (hf hf' : Bool) (b : Bool) (h : hrnpDec d hf' = .ok b) :
-    hrnpDec (d ++ t) hf = hrnpDec d hf := by
+theorem hrnpDecOld_append_of_ok (d t : Bytes) (hf hf' : Bool) (b : Bool) (h : hrnpDecOld d hf' = .ok b) :
+    hrnpDecOld (d ++ t) hf = hrnpDecOld d hf := by
   have hlen : 12 ≤ d.length ∧ be16 ((d.take 10).drop 8) ≤ d.length := by
-    unfold hrnpDec at h
+    unfold hrnpDecOld at h
     simp only [bind, Except.bind, pure, Except.pure] at h
     split at h
     · exact absurd h (by simp [throw, throwThe, MonadExceptOf.throw])
     · split at h
       · exact absurd h (by simp [throw, throwThe, MonadExceptOf.throw])
       · exact ⟨by omega, by omega⟩
-  exact hrnpDec_append d t hf hlen.1 hlen.2
+  exact hrnpDecOld_append d t hf hlen.1 hlen.2
 
 /-! ### a wrong check value over the data bits of a valid word -/
 
@@ -114,12 +114,12 @@ theorem rate_wrong_check (c : RateCfg) (k kl : Nat) (hc : RateOk c k kl) (last :
   exact hne (List.reverse_inj.mp hvr).symm
 
 /-- HRNP: the two checksum octets replaced, everything else as received -/
-theorem hrnp_wrong_check (d : Bytes) (hd : hrnpDec d false = .ok true) (a b : Nat)
+theorem hrnp_wrong_check (d : Bytes) (hd : hrnpDecOld d false = .ok true) (a b : Nat)
     (hne : be16 [a, b] ≠ be16 ((d.take 12).drop 10)) (hf : Bool) :
-    hrnpDec ((d.set 10 a).set 11 b) hf ≠ .ok true := by
-  obtain ⟨h12, hP, hsum⟩ := hrnpDec_true d false hd
+    hrnpDecOld ((d.set 10 a).set 11 b) hf ≠ .ok true := by
+  obtain ⟨h12, hP, hsum⟩ := hrnpDecOld_true d false hd
   intro hcontra
-  obtain ⟨_, _, hsum'⟩ := hrnpDec_true _ hf hcontra
+  obtain ⟨_, _, hsum'⟩ := hrnpDecOld_true _ hf hcontra
   have t10 : ((d.set 10 a).set 11 b).take 10 = d.take 10 := by
     rw [List.take_set, List.take_set, List.set_eq_of_length_le (by simp; omega), List.set_eq_of_length_le (by simp; omega)]
   have hcov : hrnpCovered ((d.set 10 a).set 11 b) = hrnpCovered d := by
